@@ -277,6 +277,9 @@ pub fn dispatch(f: &[&str]) -> String {
             h.set(cd);
             hex(h.to_string().as_bytes())
         }
+        "transport.stub" => crate::transports::stub(f[1], f[2], f[3]),
+        "transport.file" => crate::transports::file(f[1], f[2], f[3]),
+        "transport.sendmail" => crate::transports::sendmail(f[1], f[2], f[3], f[4]),
         "mime.format" => crate::mime::format(f[1]),
         "mime.message" => crate::mime::message(f[1]),
         "body.new" => {
